@@ -20,6 +20,7 @@
   The full statements (for the code as it is) are the `…` theorems of the patched variants with `fixed := false`.
 -/
 import SgeProofs.Lemmas.Genesis
+import SgeProofs.Lemmas.GenesisSub
 namespace Sge.Genesis
 open Sge Sge.Core
 
@@ -726,6 +727,129 @@ theorem c16_validate_export_ovm (fixed : Bool) (σ : Ovm.State) (h1 : Ovm.minKey
   cases fixed
   · simp
   · simp [h4 rfl]
+
+-- =============================================================================================
+-- subaccount
+
+/-- reachable-state invariant of x/subaccount: the id counter is positive; every subaccount lives at the address of an
+    id below the counter; summary and locked balances exist exactly for the subaccounts; the two owner maps are inverse to
+    each other; the locked balances of a subaccount have pairwise different unlock times (they are a keyed store) -/
+structure SubInv (s : Subaccount.State) : Prop where
+  idpos : s.nextId ≠ 0
+  dom : ∀ a o, s.subMap a = some o → ∃ id, id < s.nextId ∧ a = Subaccount.addrOf id
+  subs : ∀ a, s.subMap a ≠ none ↔ s.subs a ≠ none
+  own : ∀ o a, s.ownerMap o = some a ↔ s.subMap a = some o
+  locks : ∀ a sub, s.subs a = some sub → DistinctTs sub.locks
+
+theorem subAddrs_pairwise (s : Subaccount.State) : (subAddrs s).Pairwise (· ≠ ·) := by
+  unfold subAddrs
+  rw [List.pairwise_map]
+  exact (List.pairwise_lt_range).imp (fun {a b} h => by unfold Subaccount.addrOf; omega)
+
+/-- C16 subaccount: ExportGenesis does not panic, and InitGenesis of the export restores the id counter, both owner maps,
+    every account summary, every locked balance (as a map unlock time → amount) and the parameters. -/
+theorem c16_import_export_sub (s : Subaccount.State) (h : SubInv s) :
+    ∃ g, exportSub s = some g ∧ validateSub g = 0 ∧
+      (importSub g s).nextId = s.nextId ∧ (importSub g s).wagerEnabled = s.wagerEnabled ∧
+      (importSub g s).depositEnabled = s.depositEnabled ∧
+      (∀ a, (importSub g s).subMap a = s.subMap a) ∧ (∀ o, (importSub g s).ownerMap o = s.ownerMap o) ∧
+      (∀ a, ((importSub g s).subs a).map (·.sum) = (s.subs a).map (·.sum)) ∧
+      (∀ a ts, ((importSub g s).subs a).map (fun x => lockAt x.locks ts) = (s.subs a).map (fun x => lockAt x.locks ts)) := by
+  obtain ⟨accs, hacc⟩ := exportSubAccs_some s (subAddrs s) (fun a _ hne => (h.subs a).mp hne)
+  obtain ⟨sp1, sp2, sp3⟩ := exportSubAccs_spec s (subAddrs s) accs hacc
+  have hda := sp3 (subAddrs_pairwise s)
+  -- owners are pairwise different as well (the owner maps are inverse to each other)
+  have hdo : accs.Pairwise (fun x y => x.owner ≠ y.owner) := by
+    apply hda.imp_of_mem
+    intro x y hx hy hne heq
+    have ox := (h.own x.owner x.addr).mpr (sp1 x hx).2.1
+    have oy := (h.own y.owner y.addr).mpr (sp1 y hy).2.1
+    rw [heq, oy] at ox
+    exact hne (Option.some.inj ox).symm
+  refine ⟨{ id := s.nextId, accounts := accs, wagerEnabled := s.wagerEnabled, depositEnabled := s.depositEnabled }, ?_, rfl, ?_⟩
+  · unfold exportSub; rw [hacc]; rfl
+  · -- the fresh stores the loop starts from
+    have hmem : ∀ a o, s.subMap a = some o → ∃ x ∈ accs, x.addr = a := by
+      intro a o hao
+      obtain ⟨id, hid, rfl⟩ := h.dom a o hao
+      exact sp2 _ (List.mem_map.mpr ⟨id, List.mem_range.mpr hid, rfl⟩) o hao
+    unfold importSub
+    simp only
+    have hidne : (s.nextId != 0) = true := by simpa using h.idpos
+    simp only [hidne, ↓reduceIte]
+    refine ⟨?_, ?_, ?_, ?_, ?_, ?_, ?_⟩
+    · exact (foldl_importSubAcc_addr accs hda _ 0).2.2.1
+    · exact (foldl_importSubAcc_addr accs hda _ 0).2.2.2.1
+    · exact (foldl_importSubAcc_addr accs hda _ 0).2.2.2.2
+    · intro a
+      obtain ⟨f1, f2, _⟩ := foldl_importSubAcc_addr accs hda
+        { s with nextId := s.nextId, wagerEnabled := s.wagerEnabled, depositEnabled := s.depositEnabled,
+                 ownerMap := fun _ => none, subMap := fun _ => none, subs := fun _ => none } a
+      by_cases hex : ∃ x ∈ accs, x.addr = a
+      · obtain ⟨x, hx, hxa⟩ := hex
+        rw [(f1 x hx hxa).1, ← hxa]
+        exact (sp1 x hx).2.1.symm
+      · have hno : ∀ x ∈ accs, x.addr ≠ a := fun x hx e => hex ⟨x, hx, e⟩
+        rw [(f2 hno).1]
+        cases hsa : s.subMap a with
+        | none => rfl
+        | some o => exact absurd (hmem a o hsa) hex
+    · intro o
+      obtain ⟨f1, f2⟩ := foldl_importSubAcc_owner accs hdo
+        { s with nextId := s.nextId, wagerEnabled := s.wagerEnabled, depositEnabled := s.depositEnabled,
+                 ownerMap := fun _ => none, subMap := fun _ => none, subs := fun _ => none } o
+      by_cases hex : ∃ x ∈ accs, x.owner = o
+      · obtain ⟨x, hx, hxo⟩ := hex
+        rw [f1 x hx hxo, ← hxo]
+        exact ((h.own x.owner x.addr).mpr (sp1 x hx).2.1).symm
+      · have hno : ∀ x ∈ accs, x.owner ≠ o := fun x hx e => hex ⟨x, hx, e⟩
+        rw [f2 hno]
+        cases hso : s.ownerMap o with
+        | none => rfl
+        | some a =>
+          have hsa := (h.own o a).mp hso
+          obtain ⟨x, hx, hxa⟩ := hmem a o hsa
+          have := (sp1 x hx).2.1
+          rw [hxa, hsa] at this
+          exact absurd (Option.some.inj this).symm (hno x hx)
+    · intro a
+      obtain ⟨f1, f2, _⟩ := foldl_importSubAcc_addr accs hda
+        { s with nextId := s.nextId, wagerEnabled := s.wagerEnabled, depositEnabled := s.depositEnabled,
+                 ownerMap := fun _ => none, subMap := fun _ => none, subs := fun _ => none } a
+      by_cases hex : ∃ x ∈ accs, x.addr = a
+      · obtain ⟨x, hx, hxa⟩ := hex
+        obtain ⟨_, _, sub, hsub, hsum, _⟩ := sp1 x hx
+        rw [(f1 x hx hxa).2, ← hxa, hsub]
+        simp [hsum]
+      · have hno : ∀ x ∈ accs, x.addr ≠ a := fun x hx e => hex ⟨x, hx, e⟩
+        rw [(f2 hno).2]
+        cases hsa : s.subs a with
+        | none => rfl
+        | some sub =>
+          have : s.subMap a ≠ none := (h.subs a).mpr (by simp [hsa])
+          cases hm : s.subMap a with
+          | none => exact absurd hm this
+          | some o => exact absurd (hmem a o hm) hex
+    · intro a ts
+      obtain ⟨f1, f2, _⟩ := foldl_importSubAcc_addr accs hda
+        { s with nextId := s.nextId, wagerEnabled := s.wagerEnabled, depositEnabled := s.depositEnabled,
+                 ownerMap := fun _ => none, subMap := fun _ => none, subs := fun _ => none } a
+      by_cases hex : ∃ x ∈ accs, x.addr = a
+      · obtain ⟨x, hx, hxa⟩ := hex
+        obtain ⟨_, _, sub, hsub, _, hlocks⟩ := sp1 x hx
+        rw [(f1 x hx hxa).2, ← hxa, hsub]
+        simp only [Option.map_some, Option.some.injEq]
+        rw [hlocks]
+        exact lockAt_roundtrip sub.locks (h.locks x.addr sub hsub) ts
+      · have hno : ∀ x ∈ accs, x.addr ≠ a := fun x hx e => hex ⟨x, hx, e⟩
+        rw [(f2 hno).2]
+        cases hsa : s.subs a with
+        | none => rfl
+        | some sub =>
+          have : s.subMap a ≠ none := (h.subs a).mpr (by simp [hsa])
+          cases hm : s.subMap a with
+          | none => exact absurd hm this
+          | some o => exact absurd (hmem a o hm) hex
 
 -- =============================================================================================
 -- reward
